@@ -89,7 +89,8 @@ static void janetc_loadconst(JanetCompiler *c, Janet k, int32_t reg) {
             if (dval < INT16_MIN || dval > INT16_MAX)
                 goto do_constant;
             int32_t i = (int32_t) dval;
-            if (dval != i)
+            /* -0.0 equals 0 but is a different number (1 / -0.0 is -inf): load it as a constant */
+            if (dval != i || (i == 0 && signbit(dval)))
                 goto do_constant;
             uint32_t iu = (uint32_t)i;
             janetc_emit(c,
